@@ -14,7 +14,15 @@ pub enum Which {
     RealMicro,
     Clarabel,
     Tableau,
+    /// the MILP entry point with options that stop it early: whatever it returns as `Ok` is held to
+    /// the same certificate (C04); verdicts of these runs are not compared with the oracle (C05)
+    MilpTimeZero,
+    MilpOneNode,
+    MilpThreeNodes,
 }
+
+/// the entry points run under a limit (time limit 0, deterministic node limits through the hook)
+pub const LIMITED: [Which; 3] = [Which::MilpTimeZero, Which::MilpOneNode, Which::MilpThreeNodes];
 
 pub const ALL: [Which; 5] = [
     Which::Milp,
@@ -32,6 +40,9 @@ impl Which {
             Which::RealMicro => "real_microlp",
             Which::Clarabel => "clarabel",
             Which::Tableau => "tableau",
+            Which::MilpTimeZero => "milp-time-limit-0",
+            Which::MilpOneNode => "milp-node-limit-1",
+            Which::MilpThreeNodes => "milp-node-limit-3",
         }
     }
     pub fn simplex_based(self) -> bool {
@@ -194,6 +205,21 @@ pub fn solve_inline(which: Which, m: &LinearModel) -> Ans {
             Ok(s) => Ans::Ok(from_real(s)),
             Err(e) => map_err(e),
         },
+        Which::MilpTimeZero | Which::MilpOneNode | Which::MilpThreeNodes => {
+            let (time_limit, nodes) = match which {
+                Which::MilpTimeZero => (Some(std::time::Duration::ZERO), None),
+                Which::MilpOneNode => (None, Some(1)),
+                _ => (None, Some(3)),
+            };
+            // the hook is thread-local and this runs on the helper thread of the call
+            rooc::verif_hooks::set_milp_node_limit(nodes);
+            let r = rooc::solve_milp_lp_problem_with(m, &rooc::MilpOptions { mip_gap: None, time_limit });
+            rooc::verif_hooks::set_milp_node_limit(None);
+            match r {
+                Ok(s) => Ans::Ok(from_milp(s)),
+                Err(e) => map_err(e),
+            }
+        }
     }
 }
 
